@@ -7,7 +7,7 @@ import rf_model as m
 from common import Ctx, Failure, corpus_cases
 
 COQ_TARGETS = ["props/P_C07.vo", "corr/Corr_RF.vo", "corr/Corr_RFF.vo"]
-PROOF_FILES = ["proofs/ResourceFn_proofs.v", "proofs/RfFaults_proofs.v"]
+PROOF_FILES = ["proofs/ResourceFn_proofs.v", "proofs/RfFaults_proofs.v", "proofs/CrossModel_faults.v"]
 RULE = ("exhaustive cells readonly x owned x namespaced x create.enabled x update policy x deleteIfExists x "
         "precondition result x cluster situation (absent / present+matching / present+drifted / present without owner "
         "ref / drifted and without owner ref / terminating), each with random target documents (inline or template, overlays, create overlay), plus random "
